@@ -55,7 +55,7 @@ PROPS["C04"] = dict(
     partial=["that the body's input list is the concatenation of the blocks' selections is the model of compile_inputs (Compile.v, tied by C02/C08/C10/C14); the theorem says that this concatenation holds no reference twice, and the same is checked on the implementation's output (clause 106)"],
     trusted_base=SELECT_TB,
     assumptions=["input blocks of one transaction have distinct lower-cased names (see DESIGN 5.4)"],
-    check_names={106: "a UTxO is bound to two input blocks", 108: "two input blocks of one resolve_tx pass hold the same UTxO (fee loop)"},
+    check_names={106: "a UTxO is bound to two input blocks", 108: "two input blocks of one resolve_tx pass hold the same UTxO (fee loop)", 109: "an accepted program gives two of its blocks (input / collateral) one query name"},
 )
 
 TIR_TB = TB_COMMON + [
@@ -299,7 +299,7 @@ PROPS["C17"] = dict(
     check_names={171: "every argument key the embedded IR requires is declared by the interface under the same spelling",
                  172: "the envelope in the TII decodes to the IR that lowering produced",
                  173: "two declared names share a key", 174: "a declared name is required by the IR under another spelling",
-                 175: "a declared key that the body uses is not reported by find_params of the shipped IR (the server would drop the argument)", 5: "find_params of the shipped IR (implementation) = the model's walk of that IR"},
+                 175: "a declared key that the body uses is not reported by find_params of the shipped IR (the server would drop the argument)", 176: "the IR shipped for a sum of 4..40 parameters does not decode to what lowering produced", 5: "find_params of the shipped IR (implementation) = the model's walk of that IR"},
 )
 PROPS["C18"] = dict(
     level="proof", runner="C18", needs_tx3c=True, model_files=FRONT_MODEL + ["PlutusData.v", "Serde.v"], proof_files=["Front_proofs.v"], check_files=["Front_check.v"],
